@@ -198,7 +198,7 @@ def run(prop, tier, seed):
                 verdict.violation(f"ConnTask.tla as-is: {res['violation']}", dict(kind="tlc-mc", config=cfgfile, module="ConnTask.tla", output_tail=res["raw"][-3000:]))
             elif cfgfile == "MC_ConnTask_asis_rest.cfg" and not res["ok"]:
                 verdict.violation(f"ConnTask.tla design check {cfgfile}: {res['violation']}", dict(kind="tlc-mc", config=cfgfile, module="ConnTask.tla", output_tail=res["raw"][-3000:]))
-    if prop == "C15":
+    if prop in ("C15", "C06"):
         # enumerated scenarios around the moment a client stops (a pending reply dropped while the client drains, ...)
         spath = os.path.join(wd, "stop-scenarios.ndjson")
         depth = 6 if tier == "quick" else 40
@@ -216,6 +216,20 @@ def run(prop, tier, seed):
                 verdict.violation(why, payload, site=json.dumps(srecs[a].get("scenario", {})))
             else:
                 verdict.note(f"violation of {p} observed while checking {prop}: {why} (stop-scenarios, record {idx})")
+    if prop == "C15":
+        # the client's run loop around a stop (spec/ClientStop.tla): every poll ends and the run future returns;
+        # the variant with the defect repaired in /repo b29ecdd must fail (the invariant can see that defect)
+        res = vlib.tlc_mc("ClientStop.tla", "MC_ClientStop.cfg", workers=4, timeout=600)
+        cov["states"] += res["distinct"]
+        cov["transitions"] += res["generated"]
+        cov["mc"].append(dict(config="MC_ClientStop.cfg", distinct=res["distinct"], generated=res["generated"], depth=res["depth"],
+                              wall_s=res["wall_s"], complete=res["left"] == 0, ok=res["ok"]))
+        if not res["ok"]:
+            verdict.violation(f"ClientStop.tla design check: {res['violation']}", dict(kind="tlc-mc", config="MC_ClientStop.cfg", module="ClientStop.tla", output_tail=res["raw"][-3000:]))
+        asis = vlib.tlc_mc("ClientStop.tla", "MC_ClientStop_asis.cfg", workers=4, timeout=600)
+        cov["mc"].append(dict(config="MC_ClientStop_asis.cfg", distinct=asis["distinct"], generated=asis["generated"], expected_violation=True, ok=asis["ok"]))
+        if asis["ok"]:
+            raise vlib.ToolError("ClientStop.tla: the variant with the repaired defect no longer violates NoSpin (the invariant has become vacuous)")
     batches = cfg["batches"] if prop != "C15" else [("sweep", SWEEP[tier]["programs"], SWEEP[tier]["points"])]
     if prop == "C19":
         batches = BATCHES_C19[tier]
@@ -288,6 +302,8 @@ def run(prop, tier, seed):
         coverage["spec_to_impl_replay"] = cov["discovery_replay"]
     if cov.get("api_replay"):
         coverage["api_level_replay"] = cov["api_replay"]
+    if prop == "C06" and cov.get("stop_scenarios"):
+        coverage["stop_scenarios"] = cov["stop_scenarios"]
     if prop == "C15":
         coverage["rule"] = ("one evaluation = one closed multi-client program re-run with one termination cause (k-th transport operation of the "
                             "victim fails / victim requests shutdown / broker shutdown / forced connection shutdown / connection task dropped) "
